@@ -15,7 +15,7 @@ trap cleanup EXIT
 cp "$src/patch.diff" "$out/patch.diff"; cp -r "$src/demo/." "$out/demo/"
 ( cd "$wt" && git apply "$out/patch.diff" ) >>"$log" 2>&1 || { echo "RESULT $prop-$var: patch does not apply" | tee -a "$log"; exit 1; }
 ( cd "$wt" && go build ./... ) >>"$log" 2>&1 || { echo "RESULT $prop-$var: does not build" | tee -a "$log"; exit 1; }
-cp "$out"/demo/*_test.go "$wt/$dest/" 2>/dev/null
+mkdir -p "$wt/$dest"; cp "$out"/demo/*_test.go "$wt/$dest/" 2>/dev/null
 ( cd "$wt" && timeout 600 go test -vet=off -count=1 $extra -run "$re" "./$dest/" ) >"$out/demo_with_change.log" 2>&1; with=$?
 rm -f "$wt/$dest"/zz_*_test.go
 ( cd "$wt" && go test -json -vet=off -count=1 -timeout 25m ./... ) > /tmp/cs/$prop$var.json 2>/dev/null
@@ -39,7 +39,7 @@ for m in $miss; do
 done
 echo "missing-after-rerun=$still" >> "$out/suite_with_change.txt"
 ( cd "$wt" && git checkout -q -- . )
-cp "$out"/demo/*_test.go "$wt/$dest/" 2>/dev/null
+mkdir -p "$wt/$dest"; cp "$out"/demo/*_test.go "$wt/$dest/" 2>/dev/null
 ( cd "$wt" && timeout 600 go test -vet=off -count=1 $extra -run "$re" "./$dest/" ) >"$out/demo_without_change.log" 2>&1; without=$?
 rm -f "$wt/$dest"/zz_*_test.go
 rm -f /tmp/cs/$prop$var.json
